@@ -369,6 +369,18 @@ def template_cond(draw, ctx: Ctx, force=None):
                                        ["not", "not_", ["in", "in_", ["const", draw(st.sampled_from(["x", "y"]))], T_]],
                                        ["cmp", "!=", T_, ["const", draw(st.sampled_from(["x", "xy"]))]]]))
         return ["and", f(), [["truth", T_], second]]
+    if t == "value_equal_join":
+        # an equality join whose one side is a bare variable: y == x.ref, x.ref == y, x == y - over data with value-equal
+        # but distinct objects (EntV) the join is on ==, not on identity
+        x, y = (draw(st.permutations(list(range(n)))))[:2]
+        lhs = draw(st.sampled_from([["attr", ["var", x], "ref"], ["var", x], ent_term(draw, ctx, x)]))
+        cmp_ = ["cmp", "==", lhs, ["var", y]] if draw(st.booleans()) else ["cmp", "==", ["var", y], lhs]
+        if chance(draw, 1, 2):
+            return cmp_
+        parts = [leaf(draw, ctx, [x]), cmp_]
+        if chance(draw, 1, 4):
+            parts.reverse()
+        return ["and", f(), parts]
     if t == "plain_and_negated_same_truth":
         # the same attribute / call written twice (two accesses, e.g. x.o and again x.o), once plain and once negated:
         # or_(and_(x.o, A), and_(not_(x.o), B)); negating one occurrence must not touch the other
